@@ -273,7 +273,13 @@ async def run_serial(ctx) -> None:
             allow = RATE * (ts[j] - ts[i]) + BUCKET + pmax + 1e-6
             if used > allow and (worst is None or used - allow > worst[0]):
                 worst = (used - allow, i, j, used, allow, pmax)
-    if worst is not None:
+    stalled = any(d["op"] == "stall" for d in plan.ops)
+    if worst is not None and stalled:
+        # with the loop serviced late, callers whose limiter sleeps matured during the stall are released together on one stale
+        # balance; how many frames may then be 'already pending' per window is not something the statement pins down (the excess seen
+        # is below one frame): the duty cycle is judged in the runs without stalls, the write spacing in all of them
+        ctx.probe("duty_cycle_not_judged_in_a_run_with_stalls")
+    elif worst is not None:
         _, i, j, used, allow, pend = worst
         ctx.violate("C11", "duty_cycle", "", f"{used} bits written in [{ts[i]:.2f},{ts[j]:.2f}] s > allowance {allow:.0f} "
                     f"(= 384 b/s x {ts[j] - ts[i]:.2f} s + bucket {BUCKET:.0f} + pending {pend})")
